@@ -261,7 +261,7 @@ type keyed[K any] struct {
 
 //go:norace
 func mapSiteInfo(site int, n int) (permute bool, yield bool, seed uint32) {
-	if !s.active {
+	if !s.active || s.quiet {
 		return false, false, 0
 	}
 	lock()
@@ -362,6 +362,9 @@ func RangeMap[M ~map[K]V, K comparable, V any](site int, m M) iter.Seq2[K, V] {
 			}
 		}
 		permute, yieldEach, seed := mapSiteInfo(site, n)
+		if debugTies && permute {
+			fmt.Fprintf(os.Stderr, "MAPFP site=%d n=%d seed=%d\n", site, n, seed)
+		}
 		if ties > 0 && n > 1 {
 			countTies(ties)
 		}
